@@ -6,8 +6,9 @@ GRIDS = [[GridEmb(1.0), GridEmb(0.5)], [GridEmb(0.1), GridEmb(2.5, 0.5)]]
 
 
 def _run(ctx, tier, label, base="MC_Adaptive_add", req=("NewEmpty", "NewFilled", "Add", "IAdd", "Copy", "Project", "Fill", "FillN")):
-    cfg = base + ("q" if tier == "quick" else "t")
-    _res, g = ctx.model_check(cfg, required_actions=list(req))
+    if tier == "thorough":
+        ctx.model_check(base + "t", dump=False)
+    _res, g = ctx.model_check(base + "q", required_actions=list(req))
     for n, gr in enumerate(GRIDS if tier == "thorough" else GRIDS[:1]):
         ctx.replay(g, AdaptiveAdapter(gr, spelling=n, stats_cls="M"), VIEW, label=f"{label}:" + "/".join(x.name for x in gr),
                    edge_budget=50000 if tier == "quick" else 300000)
